@@ -1,8 +1,1349 @@
-//! Property check C16 (see /verif/DESIGN.md §4).
-use mc::{Level, Report};
+//! Property check C16 — observation is read-only and bound to its coordinate
+//! (see /verif/DESIGN.md §4 "C16").
+//!
+//! Explicit-state BFS over `{ingest(program → worldline), tick (also idle), fork_strand(tick)}` on
+//! the real `WorldlineRuntime` + `ProvenanceService` (two base worldlines, at most one strand
+//! child), from the empty runtime and from seeded strand states.  In EVERY reachable state the
+//! full finite request menu is issued against `ObservationService::observe` and
+//! `ObservationService::observe_optic` (see `observe_menu` / `optic_menu`).
+//!
+//! Oracles:
+//!  (1) read-only: `Debug` fingerprint of runtime + provenance and an accessor fingerprint of the
+//!      engine are identical before/after every request group; cheap probes after every read;
+//!  (2) determinism: every request is asked twice, results must be `==`;
+//!  (3) coordinate binding: a `Tick(t)` result is cached under (content of the worldline's history
+//!      prefix 0..=t, request) and must be identical in every other state with that prefix
+//!      (later commits, idle passes, forks, other branches);
+//!  (4) a historical reading equals what `replay_worldline_state_at` yields at that coordinate,
+//!      and recorded truth equals the outputs recorded when that tick committed;
+//!  (5) a reference model of request validity decides which typed errors / obstruction kinds are
+//!      applicable; a reading is returned iff none is applicable.
+
+use hist::*;
+use mc::{json, Level, Report, Value};
+use rayon::prelude::*;
+use rules::fixture::{self, wl, Rt};
+use std::collections::{BTreeMap, BTreeSet, HashMap, HashSet};
+use warp_core::materialization::ChannelId;
+use warp_core::{
+    AttachmentDescentPolicy, AttachmentKey, AuthoredObserverPlan, BuiltinObserverPlan, ContractQueryObserver,
+    ContractQueryObserverContext, ContractQueryObserverResult, CoordinateAt, EchoCoordinate, Engine, NodeKey,
+    ObservationArtifact, ObservationAt, ObservationBasisPosture, ObservationCoordinate, ObservationError,
+    ObservationFrame, ObservationPayload, ObservationProjection, ObservationProjectionKind,
+    ObservationReadBudget, ObservationRequest, ObservationRights, ObservationService, ObserveOpticRequest,
+    ObserveOpticResult, ObserverInstanceId, ObserverInstanceRef, ObserverPlanId, OpticAperture,
+    OpticApertureShape, OpticCapabilityId, OpticFocus, OpticId, OpticObstructionKind, OpticReadBudget,
+    ProjectionVersion, ProvenanceRef, ProvenanceStore, ReadingBudgetPosture, ReadingObserverPlan,
+    ReadingWitnessRef, SchedulerKind, WorldlineId, WorldlineState, WorldlineTick,
+};
+
+fn wt(t: u64) -> WorldlineTick {
+    WorldlineTick::from_raw(t)
+}
+
+const CHILD: u8 = 9;
+const UNKNOWN: u8 = 0xEE;
+const QUERY_REGISTERED: u32 = 7;
+const QUERY_UNREGISTERED: u32 = 8;
+
+// ---------------------------------------------------------------------------------------------
+// System under exploration
+// ---------------------------------------------------------------------------------------------
+
+#[derive(Clone, Copy, Debug, PartialEq, Eq, Hash, PartialOrd, Ord)]
+enum Op {
+    Ingest(u8, u8),
+    Tick,
+    Fork(u64),
+}
+
+fn op_enc(o: &Op) -> String {
+    match o {
+        Op::Ingest(w, p) => format!("I{w}.{p}"),
+        Op::Tick => "T".into(),
+        Op::Fork(f) => format!("F{f}"),
+    }
+}
+
+fn ops_dec(s: &str) -> Vec<Op> {
+    s.split_whitespace()
+        .filter_map(|t| {
+            if t == "T" {
+                Some(Op::Tick)
+            } else if let Some(f) = t.strip_prefix('F') {
+                f.parse().ok().map(Op::Fork)
+            } else if let Some(r) = t.strip_prefix('I') {
+                let (w, p) = r.split_once('.')?;
+                Some(Op::Ingest(w.parse().ok()?, p.parse().ok()?))
+            } else {
+                None
+            }
+        })
+        .collect()
+}
+
+fn path_enc(p: &[Op]) -> String {
+    p.iter().map(op_enc).collect::<Vec<_>>().join(" ")
+}
+
+/// Programs used on the worldlines (indices into `hist::programs()`): P0 and P4 write the same
+/// slot (n1 α) so a parent and a strand child can overlap; P1 writes a disjoint region.
+const ALPHABET: [u8; 3] = [0, 1, 4];
+
+fn has_child(rt: &Rt) -> bool {
+    rt.runtime.worldlines().get(&wl(CHILD)).is_some()
+}
+
+fn enabled(rt: &Rt) -> Vec<Op> {
+    let mut v = Vec::new();
+    let mut wls = vec![1u8, 2u8];
+    if has_child(rt) {
+        wls.push(CHILD);
+    }
+    for w in wls {
+        for p in ALPHABET {
+            v.push(Op::Ingest(w, p));
+        }
+    }
+    v.push(Op::Tick);
+    if !has_child(rt) {
+        for f in 0..len(rt, wl(1)) {
+            v.push(Op::Fork(f));
+        }
+    }
+    v
+}
+
+/// Apply one operation with the real runtime; `None` = not applicable (duplicate intent, …).
+fn step(rt: &Rt, op: &Op) -> Option<Rt> {
+    let mut n = rt.clone();
+    match *op {
+        Op::Ingest(w, p) => match ingest(&mut n, wl(w), &programs()[p as usize]) {
+            Ok(warp_core::IngressDisposition::Accepted { .. }) => Some(n),
+            _ => None,
+        },
+        Op::Tick => {
+            tick(&mut n).ok()?;
+            // keep recorded truth non-empty: re-record with outputs (see hist::decorate)
+            n.provenance = decorate(&n).ok()?;
+            Some(n)
+        }
+        Op::Fork(f) => {
+            fork(&mut n, wl(1), f, wl(CHILD)).ok()?;
+            Some(n)
+        }
+    }
+}
+
+fn build(ops: &[Op]) -> Option<Rt> {
+    let mut rt = Rt::new(2, 1);
+    for o in ops {
+        rt = step(&rt, o)?;
+    }
+    Some(rt)
+}
+
+// ---------------------------------------------------------------------------------------------
+// Engine used for reads
+// ---------------------------------------------------------------------------------------------
+
+fn query_plan() -> AuthoredObserverPlan {
+    AuthoredObserverPlan {
+        plan_id: ObserverPlanId::from_bytes([0x51; 32]),
+        artifact_hash: [0x52; 32],
+        schema_hash: [0x53; 32],
+        state_schema_hash: [0x54; 32],
+        update_law_hash: [0x55; 32],
+        emission_law_hash: [0x56; 32],
+    }
+}
+
+/// What the installed query observer must return for a resolved coordinate.
+fn query_bytes(query_id: u32, vars: &[u8], tick: u64, state_root: &[u8; 32]) -> Vec<u8> {
+    let mut b = query_id.to_le_bytes().to_vec();
+    b.extend_from_slice(vars);
+    b.extend_from_slice(&tick.to_le_bytes());
+    b.extend_from_slice(state_root);
+    b
+}
+
+fn read_engine() -> Engine {
+    let mut e = fixture::fresh_engine(SchedulerKind::Radix, 1);
+    let obs = ContractQueryObserver::new(QUERY_REGISTERED, query_plan(), |c: ContractQueryObserverContext<'_>| {
+        Ok(ContractQueryObserverResult::complete(query_bytes(
+            c.query_id,
+            c.vars_bytes,
+            c.resolved.resolved_worldline_tick.as_u64(),
+            &c.resolved.state_root,
+        )))
+    });
+    e.register_contract_query_observer(obs).expect("query observer");
+    e
+}
+
+fn engine_fp(e: &Engine) -> [u8; 32] {
+    let s = format!(
+        "{:?}|{:?}|{}|{:?}|{:?}|{}|{:?}|{}",
+        e.state(),
+        e.snapshot(),
+        e.materialization_bus().is_empty(),
+        e.last_materialization(),
+        e.last_materialization_errors(),
+        e.get_ledger().len(),
+        e.pending_intent_count().ok(),
+        e.get_intent_log().len()
+    );
+    mc::h(s.as_bytes())
+}
+
+fn rt_fp(rt: &Rt) -> [u8; 32] {
+    mc::h(&rt.fingerprint())
+}
+
+/// Cheap probe of live state, taken after every single read.
+fn probe(rt: &Rt) -> (u64, usize, Vec<(u64, u64)>) {
+    (
+        rt.runtime.global_tick().as_u64(),
+        rt.runtime.receipt_correlation_full_scan_count_for_test(),
+        rt.runtime
+            .worldlines()
+            .iter()
+            .map(|(id, f)| (f.frontier_tick().as_u64(), rt.provenance.len(*id).unwrap_or(u64::MAX)))
+            .collect(),
+    )
+}
+
+// ---------------------------------------------------------------------------------------------
+// Request menu
+// ---------------------------------------------------------------------------------------------
+
+fn projections() -> Vec<ObservationProjection> {
+    vec![
+        ObservationProjection::Head,
+        ObservationProjection::Snapshot,
+        ObservationProjection::TruthChannels { channels: None },
+        ObservationProjection::TruthChannels { channels: Some(vec![]) },
+        ObservationProjection::TruthChannels { channels: Some(vec![channel_a()]) },
+        ObservationProjection::TruthChannels { channels: Some(vec![channel_b(), channel_none()]) },
+        ObservationProjection::Query { query_id: QUERY_REGISTERED, vars_bytes: vec![] },
+        ObservationProjection::Query { query_id: QUERY_REGISTERED, vars_bytes: vec![1, 2] },
+        ObservationProjection::Query { query_id: QUERY_UNREGISTERED, vars_bytes: vec![] },
+    ]
+}
+
+const FRAMES: [ObservationFrame; 3] = [
+    ObservationFrame::CommitBoundary,
+    ObservationFrame::RecordedTruth,
+    ObservationFrame::QueryView,
+];
+
+fn valid_pair(f: ObservationFrame, k: ObservationProjectionKind) -> bool {
+    // ADR/observation docs: commit boundary ↔ head|snapshot, recorded truth ↔ truth channels,
+    // query view ↔ query.
+    matches!(
+        (f, k),
+        (ObservationFrame::CommitBoundary, ObservationProjectionKind::Head | ObservationProjectionKind::Snapshot)
+            | (ObservationFrame::RecordedTruth, ObservationProjectionKind::TruthChannels)
+            | (ObservationFrame::QueryView, ObservationProjectionKind::Query)
+    )
+}
+
+fn builtin_plan_for(f: ObservationFrame, k: ObservationProjectionKind) -> BuiltinObserverPlan {
+    match (f, k) {
+        (_, ObservationProjectionKind::Head) => BuiltinObserverPlan::CommitBoundaryHead,
+        (_, ObservationProjectionKind::Snapshot) => BuiltinObserverPlan::CommitBoundarySnapshot,
+        (_, ObservationProjectionKind::TruthChannels) => BuiltinObserverPlan::RecordedTruthChannels,
+        (_, ObservationProjectionKind::Query) => BuiltinObserverPlan::QueryBytes,
+    }
+}
+
+/// Base request (unbounded, kernel-public, one-shot, the builtin plan of the projection).
+fn base_request(w: WorldlineId, at: ObservationAt, f: ObservationFrame, p: ObservationProjection) -> ObservationRequest {
+    let plan = builtin_plan_for(f, p.kind());
+    ObservationRequest {
+        coordinate: ObservationCoordinate { worldline_id: w, at },
+        frame: f,
+        projection: p,
+        observer_plan: ReadingObserverPlan::Builtin { plan },
+        observer_instance: None,
+        budget: ObservationReadBudget::UnboundedOneShot,
+        rights: ObservationRights::KernelPublic,
+    }
+}
+
+#[derive(Clone, Debug, PartialEq)]
+enum Variant {
+    Base,
+    Budget(u64, u64),
+    Capability,
+    AuthoredPlan,
+    WrongBuiltinPlan,
+    Instance,
+}
+
+fn variants() -> Vec<Variant> {
+    vec![
+        Variant::Budget(0, 0),
+        Variant::Budget(16, 8),
+        Variant::Budget(4096, 8),
+        Variant::Budget(4096, 0),
+        Variant::Capability,
+        Variant::AuthoredPlan,
+        Variant::WrongBuiltinPlan,
+        Variant::Instance,
+    ]
+}
+
+fn apply_variant(base: &ObservationRequest, v: &Variant) -> ObservationRequest {
+    let mut r = base.clone();
+    match v {
+        Variant::Base => {}
+        Variant::Budget(b, w) => {
+            r.budget = ObservationReadBudget::Bounded {
+                max_payload_bytes: *b,
+                max_witness_refs: *w,
+            }
+        }
+        Variant::Capability => {
+            r.rights = ObservationRights::CapabilityScoped {
+                capability: OpticCapabilityId::from_bytes([0x61; 32]),
+            }
+        }
+        Variant::AuthoredPlan => {
+            // for queries: an authored plan that is NOT the installed one
+            let mut p = query_plan();
+            p.plan_id = ObserverPlanId::from_bytes([0x99; 32]);
+            r.observer_plan = ReadingObserverPlan::Authored { plan: Box::new(p) };
+        }
+        Variant::WrongBuiltinPlan => {
+            let wrong = match base.observer_plan {
+                ReadingObserverPlan::Builtin { plan: BuiltinObserverPlan::CommitBoundaryHead } => BuiltinObserverPlan::CommitBoundarySnapshot,
+                _ => BuiltinObserverPlan::CommitBoundaryHead,
+            };
+            r.observer_plan = ReadingObserverPlan::Builtin { plan: wrong };
+        }
+        Variant::Instance => {
+            r.observer_instance = Some(ObserverInstanceRef {
+                instance_id: ObserverInstanceId::from_bytes([0x71; 32]),
+                plan_id: ObserverPlanId::from_bytes([0x72; 32]),
+                state_hash: [0x73; 32],
+            })
+        }
+    }
+    r
+}
+
+fn err_name<E: std::fmt::Debug>(e: &E) -> String {
+    let d = format!("{e:?}");
+    d.split(|c| c == ' ' || c == '(' || c == '{').next().unwrap_or("").to_string()
+}
+
+// ---------------------------------------------------------------------------------------------
+// Reference knowledge about a state (computed from provenance + replay, not from observation)
+// ---------------------------------------------------------------------------------------------
+
+struct WlInfo {
+    id: WorldlineId,
+    len: u64,
+    strand: bool,
+    /// prefix_fp[t] = hash of the full content of entries 0..=t
+    prefix_fp: Vec<[u8; 32]>,
+    /// replayed[c] = state replayed at cursor coordinate c (0..=len)
+    replayed: Vec<WorldlineState>,
+    /// recorded (commit_global_tick, outputs, commit hash, state root) per entry
+    entries: Vec<(u64, Vec<(ChannelId, Vec<u8>)>, [u8; 32], [u8; 32])>,
+    frontier_root: [u8; 32],
+}
+
+fn wl_info(rt: &Rt, id: WorldlineId) -> Result<WlInfo, String> {
+    let f = rt.runtime.worldlines().get(&id).ok_or("no frontier")?;
+    let n = rt.provenance.len(id).map_err(|e| format!("{e:?}"))?;
+    let mut prefix_fp = Vec::new();
+    let mut entries = Vec::new();
+    let mut acc = mc::h(id.as_bytes());
+    for t in 0..n {
+        let e = rt.provenance.entry(id, wt(t)).map_err(|e| format!("{e:?}"))?;
+        let mut b = acc.to_vec();
+        b.extend_from_slice(format!("{e:?}").as_bytes());
+        acc = mc::h(&b);
+        prefix_fp.push(acc);
+        entries.push((e.commit_global_tick.as_u64(), e.outputs.clone(), e.expected.commit_hash, e.expected.state_root));
+    }
+    let mut replayed = Vec::new();
+    for c in 0..=n {
+        replayed.push(
+            rt.provenance
+                .replay_worldline_state_at(id, f.state(), wt(c))
+                .map_err(|e| format!("replay {c}: {e:?}"))?,
+        );
+    }
+    Ok(WlInfo {
+        id,
+        len: n,
+        strand: rt.runtime.strands().find_by_child_worldline(&id).is_some(),
+        prefix_fp,
+        replayed,
+        entries,
+        frontier_root: f.state().state_root(),
+    })
+}
+
+// ---------------------------------------------------------------------------------------------
+// Per-state result
+// ---------------------------------------------------------------------------------------------
+
+#[derive(Default)]
+struct Out {
+    counters: BTreeMap<String, u64>,
+    outcomes: BTreeMap<String, u64>,
+    violations: Vec<(String, Value)>,
+    machinery: Vec<String>,
+    reads: u64,
+    /// (cache key, value fingerprint, description) for coordinate binding, merged sequentially
+    bound: Vec<([u8; 32], [u8; 32], String)>,
+    /// (content fp without hash, artifact hash) for the identity bijection
+    ident: Vec<([u8; 32], [u8; 32])>,
+    /// distinct payload fingerprints per projection kind
+    payloads: Vec<(String, [u8; 32])>,
+    nontrivial: Vec<u128>,
+}
+
+impl Out {
+    fn c(&mut self, k: &str, n: u64) {
+        *self.counters.entry(k.to_string()).or_insert(0) += n;
+    }
+    fn o(&mut self, k: String) {
+        *self.outcomes.entry(k).or_insert(0) += 1;
+    }
+    fn v(&mut self, sig: String, path: &str, detail: Value) {
+        self.violations.push((sig, json!({"case": {"history": path}, "detail": detail})));
+    }
+}
+
+fn normalized(a: &ObservationArtifact, drop_posture: bool) -> ObservationArtifact {
+    let mut n = a.clone();
+    // freshness watermark: by contract a function of the live global tick, not of the coordinate
+    n.resolved.observed_after_global_tick = None;
+    n.artifact_hash = [0; 32];
+    if drop_posture {
+        // INV-S10: live parent-basis posture of a strand frontier is a function of current parent history
+        n.reading.parent_basis_posture = ObservationBasisPosture::Worldline;
+        if let Some(q) = n.reading.query_identity.as_mut() {
+            q.basis_digest = [0; 32];
+            q.reading_id = [0; 32];
+        }
+        n.reading.retained_evidence.clear();
+    }
+    n
+}
+
+/// The set of typed errors the documentation makes applicable to `req` in this state.
+fn applicable_errors(req: &ObservationRequest, info: Option<&WlInfo>) -> BTreeSet<&'static str> {
+    let mut s = BTreeSet::new();
+    if info.is_none() {
+        s.insert("InvalidWorldline");
+    }
+    let kind = req.projection.kind();
+    if !valid_pair(req.frame, kind) {
+        s.insert("UnsupportedFrameProjection");
+    }
+    let is_query = matches!(req.projection, ObservationProjection::Query { .. });
+    if let ObservationProjection::Query { query_id, .. } = &req.projection {
+        if *query_id != QUERY_REGISTERED && req.frame == ObservationFrame::QueryView {
+            s.insert("UnsupportedQuery");
+        }
+    }
+    let expected_plan = ReadingObserverPlan::Builtin { plan: builtin_plan_for(req.frame, kind) };
+    let installed = ReadingObserverPlan::Authored { plan: Box::new(query_plan()) };
+    let plan_ok = req.observer_plan == expected_plan || (is_query && req.observer_plan == installed);
+    if !plan_ok {
+        s.insert("UnsupportedObserverPlan");
+    }
+    if req.observer_instance.is_some() {
+        s.insert("UnsupportedObserverInstance");
+    }
+    if matches!(req.rights, ObservationRights::CapabilityScoped { .. }) {
+        s.insert("UnsupportedRights");
+    }
+    if let Some(i) = info {
+        match req.coordinate.at {
+            ObservationAt::Tick(t) if t.as_u64() >= i.len => {
+                s.insert("InvalidTick");
+            }
+            ObservationAt::Frontier if req.frame == ObservationFrame::RecordedTruth && i.len == 0 => {
+                s.insert("ObservationUnavailable");
+            }
+            _ => {}
+        }
+    }
+    s
+}
+
+fn payload_kind(p: &ObservationPayload) -> &'static str {
+    match p {
+        ObservationPayload::Head(_) => "Head",
+        ObservationPayload::Snapshot(_) => "Snapshot",
+        ObservationPayload::TruthChannels(_) => "TruthChannels",
+        ObservationPayload::QueryBytes(_) => "QueryBytes",
+    }
+}
+
+fn payload_wire_len(a: &ObservationArtifact) -> u64 {
+    echo_wasm_abi::encode_cbor(&a.to_abi().payload).map(|b| b.len() as u64).unwrap_or(u64::MAX)
+}
+
+/// (4): check a successful artifact against what replay / recorded provenance say.
+fn check_against_replay(out: &mut Out, path: &str, req: &ObservationRequest, a: &ObservationArtifact, i: &WlInfo) {
+    let site = format!("{:?}/{}", req.frame, payload_kind(&a.payload));
+    // which entry / cursor coordinate does the request denote?
+    let (entry_ix, cursor, expect_tick): (Option<usize>, usize, u64) = match (req.frame, req.coordinate.at) {
+        (ObservationFrame::RecordedTruth, ObservationAt::Frontier) => (Some(i.len as usize - 1), i.len as usize, i.len - 1),
+        (_, ObservationAt::Frontier) => (i.len.checked_sub(1).map(|x| x as usize), i.len as usize, i.len),
+        (_, ObservationAt::Tick(t)) => (Some(t.as_u64() as usize), t.as_u64() as usize + 1, t.as_u64()),
+    };
+    let st = &i.replayed[cursor];
+    let mut bad = |what: &str, out: &mut Out| {
+        let at = match req.coordinate.at {
+            ObservationAt::Frontier => "Frontier",
+            ObservationAt::Tick(_) => "Tick",
+        };
+        out.v(
+            format!("c16:observe:{site}@{at}: reading differs from the state replayed at that coordinate:{what}"),
+            path,
+            json!({"request": format!("{req:?}"), "got": format!("{:?}", a.resolved), "cursor_coordinate": cursor}),
+        );
+    };
+    if a.resolved.worldline_id != i.id || a.resolved.requested_at != req.coordinate.at {
+        bad("echoed coordinate", out);
+    }
+    if a.resolved.resolved_worldline_tick.as_u64() != expect_tick {
+        bad("resolved tick", out);
+    }
+    if a.resolved.state_root != st.state_root() {
+        bad("state_root", out);
+    }
+    if matches!(req.coordinate.at, ObservationAt::Frontier) && req.frame != ObservationFrame::RecordedTruth && a.resolved.state_root != i.frontier_root {
+        bad("state_root vs live frontier", out);
+    }
+    match entry_ix {
+        Some(ix) => {
+            let (gt, outputs, commit, root) = &i.entries[ix];
+            if a.resolved.commit_hash != *commit || Some(a.resolved.commit_hash) != st.last_snapshot().map(|s| s.hash) {
+                bad("commit_hash", out);
+            }
+            if a.resolved.state_root != *root {
+                bad("state_root vs recorded entry", out);
+            }
+            if a.resolved.commit_global_tick.map(|g| g.as_u64()) != Some(*gt) {
+                bad("commit_global_tick", out);
+            }
+            let wit_tick = ix as u64;
+            let want_w = vec![ReadingWitnessRef::ResolvedCommit {
+                reference: ProvenanceRef { worldline_id: i.id, worldline_tick: wt(wit_tick), commit_hash: *commit },
+            }];
+            if a.reading.witness_refs != want_w {
+                bad("witness_refs", out);
+            }
+            if let ObservationPayload::TruthChannels(got) = &a.payload {
+                let filter = match &req.projection {
+                    ObservationProjection::TruthChannels { channels } => channels.clone(),
+                    _ => None,
+                };
+                let keep = |c: &ChannelId| filter.as_ref().map_or(true, |f| f.contains(c));
+                let want: Vec<(ChannelId, Vec<u8>)> = outputs.iter().filter(|(c, _)| keep(c)).cloned().collect();
+                let from_replay: Vec<(ChannelId, Vec<u8>)> = st
+                    .last_materialization()
+                    .iter()
+                    .filter(|c| keep(&c.channel))
+                    .map(|c| (c.channel, c.data.clone()))
+                    .collect();
+                let from_rule: Vec<(ChannelId, Vec<u8>)> = outputs_for(*gt).into_iter().filter(|(c, _)| keep(c)).collect();
+                if *got != want || *got != from_replay || *got != from_rule {
+                    bad("truth channels vs outputs recorded at that tick", out);
+                }
+            }
+        }
+        None => {
+            // empty frontier
+            if a.resolved.commit_global_tick.is_some() {
+                bad("commit_global_tick on empty frontier", out);
+            }
+            if !matches!(a.reading.witness_refs.as_slice(), [ReadingWitnessRef::EmptyFrontier { state_root, .. }] if *state_root == st.state_root()) {
+                bad("empty-frontier witness", out);
+            }
+        }
+    }
+    match &a.payload {
+        ObservationPayload::Head(h) => {
+            if h.worldline_tick != a.resolved.resolved_worldline_tick
+                || h.state_root != a.resolved.state_root
+                || h.commit_hash != a.resolved.commit_hash
+                || h.commit_global_tick != a.resolved.commit_global_tick
+            {
+                bad("head payload vs resolved", out);
+            }
+        }
+        ObservationPayload::Snapshot(h) => {
+            if h.worldline_tick != a.resolved.resolved_worldline_tick
+                || h.state_root != a.resolved.state_root
+                || h.commit_hash != a.resolved.commit_hash
+                || h.commit_global_tick != a.resolved.commit_global_tick
+            {
+                bad("snapshot payload vs resolved", out);
+            }
+        }
+        ObservationPayload::QueryBytes(b) => {
+            if let ObservationProjection::Query { query_id, vars_bytes } = &req.projection {
+                if *b != query_bytes(*query_id, vars_bytes, expect_tick, &st.state_root()) {
+                    bad("query bytes", out);
+                }
+            }
+        }
+        ObservationPayload::TruthChannels(_) => {}
+    }
+    // posture
+    let want_posture_ok = match (&a.reading.parent_basis_posture, i.strand, req.coordinate.at) {
+        (ObservationBasisPosture::Worldline, false, _) => true,
+        (ObservationBasisPosture::StrandHistorical { .. }, true, ObservationAt::Tick(_)) => true,
+        (ObservationBasisPosture::StrandAtAnchor { .. }, true, ObservationAt::Frontier)
+        | (ObservationBasisPosture::StrandParentAdvancedDisjoint { .. }, true, ObservationAt::Frontier)
+        | (ObservationBasisPosture::StrandRevalidationRequired { .. }, true, ObservationAt::Frontier) => true,
+        _ => false,
+    };
+    if !want_posture_ok {
+        bad("basis posture class", out);
+    }
+    if a.frame != req.frame || a.projection != req.projection {
+        bad("echoed frame/projection", out);
+    }
+}
+
+/// Issue one request twice, classify, check (2), (4), (5); returns the first result.
+fn issue(
+    out: &mut Out,
+    path: &str,
+    rt: &Rt,
+    engine: &Engine,
+    req: &ObservationRequest,
+    info: Option<&WlInfo>,
+    extra_errors: &BTreeSet<&'static str>,
+    probe0: &(u64, usize, Vec<(u64, u64)>),
+) -> Result<ObservationArtifact, ObservationError> {
+    let r1 = ObservationService::observe(&rt.runtime, &rt.provenance, engine, req.clone());
+    let r2 = ObservationService::observe(&rt.runtime, &rt.provenance, engine, req.clone());
+    out.reads += 2;
+    if probe(rt) != *probe0 {
+        out.v("c16:read-only:live counters changed by observe".into(), path, json!({"request": format!("{req:?}")}));
+    }
+    if r1 != r2 {
+        out.v(
+            format!("c16:determinism:observe twice differs:{:?}/{:?}", req.frame, req.projection.kind()),
+            path,
+            json!({"request": format!("{req:?}")}),
+        );
+    }
+    let mut applicable = applicable_errors(req, info);
+    applicable.extend(extra_errors.iter().copied());
+    match &r1 {
+        Ok(a) => {
+            out.o(format!("reading:{}", payload_kind(&a.payload)));
+            if !applicable.is_empty() {
+                let at = match req.coordinate.at {
+                    ObservationAt::Frontier => "Frontier",
+                    ObservationAt::Tick(_) => "Tick",
+                };
+                out.v(
+                    format!(
+                        "c16:typed-error:reading returned although {} applies ({:?}/{:?}@{at})",
+                        applicable.iter().next().unwrap(),
+                        req.frame,
+                        req.projection.kind()
+                    ),
+                    path,
+                    json!({"request": format!("{req:?}"), "got": format!("{:?}", a.resolved)}),
+                );
+            } else if let Some(i) = info {
+                check_against_replay(out, path, req, a, i);
+            }
+        }
+        Err(e) => {
+            let name = err_name(e);
+            out.o(format!("typed_error:{name}"));
+            if !applicable.contains(name.as_str()) {
+                out.v(
+                    format!("c16:typed-error:unexpected {name} ({:?}/{:?})", req.frame, req.projection.kind()),
+                    path,
+                    json!({"request": format!("{req:?}"), "applicable": applicable}),
+                );
+            }
+            // the error must name the request's own coordinate
+            let echo_ok = match e {
+                ObservationError::InvalidWorldline(w) => *w == req.coordinate.worldline_id,
+                ObservationError::InvalidTick { worldline_id, tick } => {
+                    *worldline_id == req.coordinate.worldline_id && ObservationAt::Tick(*tick) == req.coordinate.at
+                }
+                ObservationError::ObservationUnavailable { worldline_id, at } => {
+                    *worldline_id == req.coordinate.worldline_id && *at == req.coordinate.at
+                }
+                ObservationError::UnsupportedFrameProjection { frame, projection } => {
+                    *frame == req.frame && *projection == req.projection.kind()
+                }
+                _ => true,
+            };
+            if !echo_ok {
+                out.v(format!("c16:typed-error:{name} names a different coordinate"), path, json!({"request": format!("{req:?}"), "error": format!("{e:?}")}));
+            }
+        }
+    }
+    r1
+}
+
+fn fp_dbg<T: std::fmt::Debug>(t: &T) -> [u8; 32] {
+    mc::fp_debug(t)
+}
+
+fn cache_key(prefix: &[u8; 32], tag: &str, req_dbg: &str) -> [u8; 32] {
+    let mut b = prefix.to_vec();
+    b.extend_from_slice(tag.as_bytes());
+    b.extend_from_slice(req_dbg.as_bytes());
+    mc::h(&b)
+}
+
+fn record_artifact(out: &mut Out, req: &ObservationRequest, a: &ObservationArtifact, i: &WlInfo, path: &str) {
+    let req_dbg = format!("{req:?}");
+    // identity bijection: everything but the hash ↔ the hash
+    let mut content = a.clone();
+    content.artifact_hash = [0; 32];
+    out.ident.push((fp_dbg(&content), a.artifact_hash));
+    out.payloads.push((payload_kind(&a.payload).to_string(), fp_dbg(&a.payload)));
+    match req.coordinate.at {
+        ObservationAt::Tick(t) => {
+            let p = &i.prefix_fp[t.as_u64() as usize];
+            out.bound.push((
+                cache_key(p, "tick-normalized", &req_dbg),
+                fp_dbg(&normalized(a, false)),
+                format!("{path} :: {req_dbg}"),
+            ));
+            let fresh = format!("tick-fresh-{:?}", a.resolved.observed_after_global_tick);
+            out.bound.push((cache_key(p, &fresh, &req_dbg), fp_dbg(a), format!("{path} :: {req_dbg}")));
+            out.c("tick_reads_recorded_for_binding", 1);
+        }
+        ObservationAt::Frontier => {
+            // same worldline history ⇒ same frontier reading (modulo freshness and, for strands,
+            // the live parent-basis posture)
+            let p = if i.len == 0 { mc::h(i.id.as_bytes()) } else { i.prefix_fp[i.len as usize - 1] };
+            out.bound.push((
+                cache_key(&p, "frontier-normalized", &req_dbg),
+                fp_dbg(&normalized(a, i.strand)),
+                format!("{path} :: {req_dbg}"),
+            ));
+        }
+    }
+}
+
+fn observe_menu(out: &mut Out, path: &str, rt: &Rt, engine: &Engine, infos: &BTreeMap<WorldlineId, WlInfo>) {
+    let mut ids: Vec<WorldlineId> = infos.keys().copied().collect();
+    ids.push(wl(UNKNOWN));
+    let fp0 = rt_fp(rt);
+    let efp0 = engine_fp(engine);
+    let probe0 = probe(rt);
+    let none: BTreeSet<&'static str> = BTreeSet::new();
+    for w in ids {
+        let info = infos.get(&w);
+        let n = info.map_or(1, |i| i.len);
+        let mut ats = vec![ObservationAt::Frontier];
+        for t in 0..=n + 1 {
+            ats.push(ObservationAt::Tick(wt(t)));
+        }
+        for at in ats {
+            for f in FRAMES {
+                for p in projections() {
+                    let base = base_request(w, at, f, p.clone());
+                    let r0 = issue(out, path, rt, engine, &base, info, &none, &probe0);
+                    if let (Ok(a), Some(i)) = (&r0, info) {
+                        record_artifact(out, &base, a, i, path);
+                        if matches!(at, ObservationAt::Tick(_)) {
+                            out.nontrivial.push(Report::key(format!("{path}|{base:?}").as_bytes()));
+                        }
+                    }
+                    // builtin_one_shot constructor agrees with the validity matrix
+                    let ctor = ObservationRequest::builtin_one_shot(base.coordinate.clone(), f, p.clone());
+                    match (&ctor, valid_pair(f, p.kind())) {
+                        (Ok(c), true) if *c == base => {}
+                        (Err(ObservationError::UnsupportedFrameProjection { .. }), false) => {}
+                        _ => out.v("c16:typed-error:builtin_one_shot disagrees with the validity matrix".into(), path, json!({"frame": format!("{f:?}"), "projection": format!("{p:?}")})),
+                    }
+                    // variants on the four canonical valid requests
+                    let canonical = valid_pair(f, p.kind())
+                        && matches!(
+                            &p,
+                            ObservationProjection::Head
+                                | ObservationProjection::Snapshot
+                                | ObservationProjection::TruthChannels { channels: None }
+                        )
+                        || (f == ObservationFrame::QueryView
+                            && matches!(&p, ObservationProjection::Query { query_id, vars_bytes } if *query_id == QUERY_REGISTERED && vars_bytes.is_empty()));
+                    if !canonical {
+                        continue;
+                    }
+                    for v in variants() {
+                        let req = apply_variant(&base, &v);
+                        let mut extra: BTreeSet<&'static str> = BTreeSet::new();
+                        if let (Variant::Budget(mb, mw), Ok(a0)) = (&v, &r0) {
+                            let plen = payload_wire_len(a0);
+                            if plen > *mb || 1 > *mw {
+                                extra.insert("BudgetExceeded");
+                            }
+                            let r = issue(out, path, rt, engine, &req, info, &extra, &probe0);
+                            match &r {
+                                Ok(a) => {
+                                    let want = ReadingBudgetPosture::Bounded {
+                                        max_payload_bytes: *mb,
+                                        payload_bytes: plen,
+                                        max_witness_refs: *mw,
+                                        witness_refs: 1,
+                                    };
+                                    if a.reading.budget_posture != want || a.payload != a0.payload || normalized(a, false).resolved != normalized(a0, false).resolved {
+                                        out.v("c16:observe:bounded reading differs from its unbounded twin".into(), path, json!({"request": format!("{req:?}")}));
+                                    }
+                                    out.c("bounded_readings_within_budget", 1);
+                                    if let Some(i) = info {
+                                        record_artifact(out, &req, a, i, path);
+                                    }
+                                }
+                                Err(ObservationError::BudgetExceeded { max_payload_bytes, payload_bytes, max_witness_refs, witness_refs }) => {
+                                    if (*max_payload_bytes, *payload_bytes, *max_witness_refs, *witness_refs) != (*mb, plen, *mw, 1) {
+                                        out.v("c16:typed-error:BudgetExceeded reports wrong sizes".into(), path, json!({"request": format!("{req:?}"), "got": format!("{r:?}")}));
+                                    }
+                                }
+                                _ => {}
+                            }
+                        } else {
+                            let r = issue(out, path, rt, engine, &req, info, &extra, &probe0);
+                            if let (Ok(a), Some(i)) = (&r, info) {
+                                record_artifact(out, &req, a, i, path);
+                            }
+                        }
+                    }
+                }
+            }
+        }
+        // read-only, per worldline group
+        if rt_fp(rt) != fp0 {
+            out.v("c16:read-only:runtime/provenance Debug fingerprint changed by observe".into(), path, json!({"worldline": format!("{w:?}")}));
+        }
+        if engine_fp(engine) != efp0 {
+            out.v("c16:read-only:engine-observable state changed by observe".into(), path, json!({"worldline": format!("{w:?}")}));
+        }
+        out.c("read_only_fingerprint_comparisons", 1);
+    }
+}
+
+// ---------------------------------------------------------------------------------------------
+// Optic menu
+// ---------------------------------------------------------------------------------------------
+
+fn optic_req(focus: OpticFocus, coordinate: EchoCoordinate, shape: OpticApertureShape, max_bytes: Option<u64>, max_ticks: Option<u64>, descent: AttachmentDescentPolicy, max_att: Option<u64>) -> ObserveOpticRequest {
+    ObserveOpticRequest {
+        optic_id: OpticId::from_bytes([0x81; 32]),
+        focus,
+        coordinate,
+        aperture: OpticAperture {
+            shape,
+            budget: OpticReadBudget {
+                max_bytes,
+                max_nodes: Some(8),
+                max_ticks,
+                max_attachments: max_att,
+            },
+            attachment_descent: descent,
+        },
+        projection_version: ProjectionVersion::from_raw(1),
+        reducer_version: None,
+        capability: OpticCapabilityId::from_bytes([0x82; 32]),
+    }
+}
+
+fn shapes() -> Vec<OpticApertureShape> {
+    vec![
+        OpticApertureShape::Head,
+        OpticApertureShape::SnapshotMetadata,
+        OpticApertureShape::TruthChannels { channels: None },
+        OpticApertureShape::QueryBytes { query_id: QUERY_REGISTERED, vars_digest: [0x83; 32] },
+        OpticApertureShape::ByteRange { start: 0, len: 16 },
+        OpticApertureShape::AttachmentBoundary,
+    ]
+}
+
+fn kind_name(k: OpticObstructionKind) -> String {
+    format!("{k:?}")
+}
+
+#[allow(clippy::too_many_arguments)]
+fn optic_menu(out: &mut Out, path: &str, rt: &Rt, engine: &Engine, infos: &BTreeMap<WorldlineId, WlInfo>) {
+    let mut ids: Vec<WorldlineId> = infos.keys().copied().collect();
+    ids.push(wl(UNKNOWN));
+    let fp0 = rt_fp(rt);
+    let efp0 = engine_fp(engine);
+    let probe0 = probe(rt);
+    let budgets: [(Option<u64>, Option<u64>); 6] = [
+        (None, Some(1)),
+        (Some(0), Some(1)),
+        (Some(64), Some(1)),
+        (Some(128), Some(1)),
+        (Some(4096), Some(1)),
+        (Some(4096), Some(0)),
+    ];
+    let mut reqs: Vec<(ObserveOpticRequest, Option<WorldlineId>)> = Vec::new();
+    for w in &ids {
+        let info = infos.get(w);
+        let n = info.map_or(1, |i| i.len);
+        let mut ats = vec![CoordinateAt::Frontier];
+        for t in 0..=n + 1 {
+            ats.push(CoordinateAt::Tick(wt(t)));
+        }
+        if let Some(i) = info {
+            for t in 0..i.len {
+                ats.push(CoordinateAt::Provenance(ProvenanceRef { worldline_id: *w, worldline_tick: wt(t), commit_hash: i.entries[t as usize].2 }));
+            }
+            ats.push(CoordinateAt::Provenance(ProvenanceRef { worldline_id: wl(UNKNOWN), worldline_tick: wt(0), commit_hash: [0; 32] }));
+        }
+        for at in ats {
+            for sh in shapes() {
+                for (mb, mt) in budgets {
+                    reqs.push((
+                        optic_req(
+                            OpticFocus::Worldline { worldline_id: *w },
+                            EchoCoordinate::Worldline { worldline_id: *w, at },
+                            sh.clone(),
+                            mb,
+                            mt,
+                            AttachmentDescentPolicy::BoundaryOnly,
+                            Some(0),
+                        ),
+                        Some(*w),
+                    ));
+                }
+            }
+        }
+    }
+    // focus / coordinate shapes outside the supported bridge
+    let w1 = wl(1);
+    let w2 = wl(2);
+    let strand_id = warp_core::make_strand_id("verif-any");
+    reqs.push((optic_req(OpticFocus::Worldline { worldline_id: w1 }, EchoCoordinate::Worldline { worldline_id: w2, at: CoordinateAt::Frontier }, OpticApertureShape::Head, Some(4096), Some(1), AttachmentDescentPolicy::BoundaryOnly, Some(0)), None));
+    reqs.push((optic_req(OpticFocus::Strand { strand_id }, EchoCoordinate::Strand { strand_id, at: CoordinateAt::Frontier, parent_basis: None }, OpticApertureShape::Head, Some(4096), Some(1), AttachmentDescentPolicy::BoundaryOnly, Some(0)), None));
+    reqs.push((optic_req(OpticFocus::Worldline { worldline_id: w1 }, EchoCoordinate::Strand { strand_id, at: CoordinateAt::Frontier, parent_basis: None }, OpticApertureShape::Head, Some(4096), Some(1), AttachmentDescentPolicy::BoundaryOnly, Some(0)), None));
+    let u = rules::universe();
+    let akey = AttachmentKey::node_alpha(NodeKey { warp_id: u.warp(0), local_id: u.node(1) });
+    for sh in [OpticApertureShape::AttachmentBoundary, OpticApertureShape::Head] {
+        for d in [AttachmentDescentPolicy::BoundaryOnly, AttachmentDescentPolicy::Explicit] {
+            for ma in [None, Some(0), Some(1)] {
+                reqs.push((optic_req(OpticFocus::AttachmentBoundary { key: akey }, EchoCoordinate::Worldline { worldline_id: w1, at: CoordinateAt::Frontier }, sh.clone(), Some(4096), Some(1), d, ma), None));
+            }
+        }
+    }
+
+    for (req, _w) in &reqs {
+        let r1 = ObservationService::observe_optic(&rt.runtime, &rt.provenance, engine, req.clone());
+        let r2 = ObservationService::observe_optic(&rt.runtime, &rt.provenance, engine, req.clone());
+        out.reads += 2;
+        if probe(rt) != probe0 {
+            out.v("c16:read-only:live counters changed by observe_optic".into(), path, json!({"request": format!("{req:?}")}));
+        }
+        if r1 != r2 {
+            out.v("c16:determinism:observe_optic twice differs".into(), path, json!({"request": format!("{req:?}")}));
+        }
+        // ---- reference: applicable obstruction kinds --------------------------------------
+        let mut app: BTreeSet<String> = BTreeSet::new();
+        let mb = req.aperture.budget.max_bytes;
+        match mb {
+            None | Some(0) => {
+                app.insert("BudgetExceeded".into());
+            }
+            Some(b) => match &req.aperture.shape {
+                OpticApertureShape::Head | OpticApertureShape::SnapshotMetadata if b < 128 => {
+                    app.insert("BudgetExceeded".into());
+                }
+                OpticApertureShape::ByteRange { len, .. } if *len > b => {
+                    app.insert("BudgetExceeded".into());
+                }
+                _ => {}
+            },
+        }
+        let mut twin: Option<(ObservationRequest, WorldlineId)> = None;
+        match (&req.focus, &req.coordinate) {
+            (OpticFocus::AttachmentBoundary { .. }, _) => {
+                match (&req.aperture.shape, req.aperture.attachment_descent) {
+                    (OpticApertureShape::AttachmentBoundary, AttachmentDescentPolicy::BoundaryOnly) => {
+                        app.insert("AttachmentDescentRequired".into());
+                    }
+                    (OpticApertureShape::AttachmentBoundary, AttachmentDescentPolicy::Explicit) => {
+                        if req.aperture.budget.max_attachments.unwrap_or(0) == 0 {
+                            app.insert("BudgetExceeded".into());
+                        } else {
+                            app.insert("AttachmentDescentDenied".into());
+                        }
+                    }
+                    _ => {
+                        app.insert("UnsupportedAperture".into());
+                    }
+                }
+            }
+            (OpticFocus::Worldline { worldline_id: fw }, EchoCoordinate::Worldline { worldline_id: cw, at }) => {
+                if fw != cw {
+                    app.insert("ConflictingFrontier".into());
+                }
+                let oat = match at {
+                    CoordinateAt::Frontier => Some(ObservationAt::Frontier),
+                    CoordinateAt::Tick(t) => Some(ObservationAt::Tick(*t)),
+                    CoordinateAt::Provenance(r) if r.worldline_id == *cw => Some(ObservationAt::Tick(r.worldline_tick)),
+                    CoordinateAt::Provenance(_) => {
+                        app.insert("ConflictingFrontier".into());
+                        None
+                    }
+                };
+                match &req.aperture.shape {
+                    OpticApertureShape::Head | OpticApertureShape::SnapshotMetadata => {
+                        if let (Some(oat), Some(b)) = (oat, mb) {
+                            let proj = if matches!(req.aperture.shape, OpticApertureShape::Head) { ObservationProjection::Head } else { ObservationProjection::Snapshot };
+                            let mut t = base_request(*cw, oat, ObservationFrame::CommitBoundary, proj);
+                            t.budget = ObservationReadBudget::Bounded { max_payload_bytes: b, max_witness_refs: req.aperture.budget.max_ticks.unwrap_or(u64::MAX) };
+                            twin = Some((t, *cw));
+                        }
+                    }
+                    OpticApertureShape::QueryBytes { .. } => {
+                        app.insert("UnsupportedProjectionLaw".into());
+                    }
+                    _ => {
+                        app.insert("UnsupportedAperture".into());
+                    }
+                }
+            }
+            _ => {
+                app.insert("UnsupportedProjectionLaw".into());
+            }
+        }
+        let mut twin_art: Option<ObservationArtifact> = None;
+        if let Some((t, _cw)) = &twin {
+            match ObservationService::observe(&rt.runtime, &rt.provenance, engine, t.clone()) {
+                Ok(a) => twin_art = Some(a),
+                Err(ObservationError::BudgetExceeded { .. }) => {
+                    app.insert("BudgetExceeded".into());
+                }
+                Err(ObservationError::InvalidWorldline(_) | ObservationError::InvalidTick { .. } | ObservationError::ObservationUnavailable { .. }) => {
+                    app.insert("MissingWitness".into());
+                }
+                Err(e) => {
+                    out.machinery.push(format!("optic twin observe returned unexpected {e:?}"));
+                }
+            }
+        }
+        match &r1 {
+            ObserveOpticResult::Reading(rd) => {
+                out.o(format!("optic_reading:{}", payload_kind(&rd.payload)));
+                if !app.is_empty() {
+                    out.v(
+                        format!("c16:optic:reading returned although {} applies", app.iter().next().unwrap()),
+                        path,
+                        json!({"request": format!("{req:?}")}),
+                    );
+                } else if let Some(a) = &twin_art {
+                    if rd.payload != a.payload || rd.envelope != a.reading {
+                        out.v("c16:optic:reading differs from the observation at the same coordinate".into(), path, json!({"request": format!("{req:?}")}));
+                    }
+                    if rd.read_identity.coordinate != req.coordinate || rd.read_identity.optic_id != req.optic_id {
+                        out.v("c16:optic:read identity names a different question".into(), path, json!({"request": format!("{req:?}")}));
+                    }
+                    out.payloads.push((format!("optic:{}", payload_kind(&rd.payload)), fp_dbg(&rd.payload)));
+                    // coordinate binding for explicit historical coordinates
+                    if let (Some((t, cw)), Some(i)) = (&twin, twin.as_ref().and_then(|(_, cw)| infos.get(cw))) {
+                        let _ = cw;
+                        if let ObservationAt::Tick(tk) = t.coordinate.at {
+                            let p = &i.prefix_fp[tk.as_u64() as usize];
+                            out.bound.push((cache_key(p, "optic", &format!("{req:?}")), fp_dbg(&**rd), format!("{path} :: {req:?}")));
+                            out.c("optic_tick_reads_recorded_for_binding", 1);
+                        }
+                    }
+                } else {
+                    out.machinery.push("optic reading without twin".into());
+                }
+            }
+            ObserveOpticResult::Obstructed(ob) => {
+                let k = kind_name(ob.kind);
+                out.o(format!("optic_obstruction:{k}"));
+                if !app.contains(&k) {
+                    out.v(
+                        format!("c16:optic:unexpected obstruction {k}"),
+                        path,
+                        json!({"request": format!("{req:?}"), "applicable": app, "message": ob.message}),
+                    );
+                }
+                if ob.optic_id != Some(req.optic_id) || ob.focus.as_ref() != Some(&req.focus) || ob.coordinate.as_ref() != Some(&req.coordinate) {
+                    out.v("c16:optic:obstruction names a different question".into(), path, json!({"request": format!("{req:?}")}));
+                }
+            }
+        }
+    }
+    if rt_fp(rt) != fp0 {
+        out.v("c16:read-only:runtime/provenance Debug fingerprint changed by observe_optic".into(), path, json!({}));
+    }
+    if engine_fp(engine) != efp0 {
+        out.v("c16:read-only:engine-observable state changed by observe_optic".into(), path, json!({}));
+    }
+    out.c("read_only_fingerprint_comparisons", 1);
+}
+
+// ---------------------------------------------------------------------------------------------
+// Visiting a state
+// ---------------------------------------------------------------------------------------------
+
+fn visit(rt: &Rt, path: &[Op], with_optic: bool) -> Out {
+    let mut out = Out::default();
+    let ps = path_enc(path);
+    let engine = read_engine();
+    let mut infos = BTreeMap::new();
+    for (id, _) in rt.runtime.worldlines().iter() {
+        match wl_info(rt, *id) {
+            Ok(i) => {
+                infos.insert(*id, i);
+            }
+            Err(e) => {
+                out.v("c16:replay:history recorded by the runtime cannot be replayed".into(), &ps, json!({"worldline": format!("{id:?}"), "error": e}));
+            }
+        }
+    }
+    // live frontier == replay at len (ties (4) to the live runtime)
+    for i in infos.values() {
+        if i.replayed[i.len as usize].state_root() != i.frontier_root {
+            out.v("c16:replay:replayed frontier root differs from live frontier".into(), &ps, json!({"worldline": format!("{:?}", i.id)}));
+        }
+        if i.strand {
+            out.c("states_with_strand_worldline", 1);
+        }
+    }
+    observe_menu(&mut out, &ps, rt, &engine, &infos);
+    if with_optic {
+        optic_menu(&mut out, &ps, rt, &engine, &infos);
+    }
+    out
+}
+
+// ---------------------------------------------------------------------------------------------
+// main
+// ---------------------------------------------------------------------------------------------
+
+struct Global {
+    bound: HashMap<[u8; 32], ([u8; 32], String)>,
+    bound_rechecks: u64,
+    ident_by_content: HashMap<[u8; 32], [u8; 32]>,
+    ident_by_hash: HashMap<[u8; 32], [u8; 32]>,
+    payloads: BTreeMap<String, HashSet<[u8; 32]>>,
+}
+
+fn merge(r: &Report, g: &mut Global, o: Out, path: &str) {
+    for (k, n) in &o.counters {
+        r.counter(k, *n);
+    }
+    for (k, n) in &o.outcomes {
+        r.outcome_n(k, *n);
+    }
+    r.eval(o.reads);
+    r.nontrivial_many(o.nontrivial.iter().copied());
+    for m in &o.machinery {
+        r.machinery_error(m);
+    }
+    for (sig, d) in o.violations {
+        r.violation(&sig, d);
+    }
+    for (k, v, what) in o.bound {
+        match g.bound.get(&k) {
+            None => {
+                g.bound.insert(k, (v, what));
+            }
+            Some((v0, what0)) => {
+                g.bound_rechecks += 1;
+                if *v0 != v {
+                    let cls = if what.contains("observe_optic") || what.contains("ObserveOpticRequest") {
+                        "optic"
+                    } else if what.contains("at: Frontier") {
+                        "frontier"
+                    } else {
+                        "tick"
+                    };
+                    let proj = ["Head", "Snapshot", "TruthChannels", "Query"].iter().find(|p| what.contains(&format!("projection: {p}"))).copied().unwrap_or("?");
+                    r.violation(
+                        &format!("c16:coordinate-binding:{cls} reading changed although the history prefix is identical:{proj}"),
+                        json!({"case": {"history": path}, "first_seen": what0, "now": what}),
+                    );
+                }
+            }
+        }
+    }
+    for (c, h) in o.ident {
+        if let Some(h0) = g.ident_by_content.insert(c, h) {
+            if h0 != h {
+                r.violation("c16:identity:same artifact content, different artifact hash", json!({"case": {"history": path}}));
+            }
+        }
+        if let Some(c0) = g.ident_by_hash.insert(h, c) {
+            if c0 != c {
+                r.violation("c16:identity:different artifact content, same artifact hash", json!({"case": {"history": path}}));
+            }
+        }
+    }
+    for (k, p) in o.payloads {
+        g.payloads.entry(k).or_default().insert(p);
+    }
+}
+
+/// BFS from `seed` to `depth`; every discovered state is visited (full menus).
+fn explore(r: &Report, g: &mut Global, seen: &mut HashSet<[u8; 32]>, seed: &[Op], depth: usize, with_optic: bool, label: &str) {
+    let Some(init) = build(seed) else {
+        r.machinery_error(&format!("seed {label} could not be built"));
+        return;
+    };
+    let mut states = 0u64;
+    let mut transitions = 0u64;
+    let mut frontier: Vec<(Rt, Vec<Op>)> = Vec::new();
+    if seen.insert(rt_fp(&init)) {
+        frontier.push((init, seed.to_vec()));
+        states += 1;
+    }
+    let mut level = 0usize;
+    loop {
+        if frontier.is_empty() {
+            break;
+        }
+        if r.over_budget_frac(0.85) {
+            r.cap_hit(&format!("{label}: stopped before visiting level {level} ({} states pending)", frontier.len()));
+            break;
+        }
+        // visit this level in parallel (states are Send, not Sync: move them in and out)
+        let visited: Vec<(Rt, Vec<Op>, Out)> = frontier
+            .into_par_iter()
+            .map(|(rt, path)| {
+                let o = visit(&rt, &path, with_optic);
+                (rt, path, o)
+            })
+            .collect();
+        let mut cur = Vec::new();
+        for (rt, path, o) in visited {
+            let ps = path_enc(&path);
+            if o.violations.is_empty() && states % 97 == 1 {
+                r.sample(json!({"history": ps, "reads": o.reads,
+                    "worldlines": rt.runtime.worldlines().iter().map(|(id, f)| format!("{}:{}", id.as_bytes()[0], f.frontier_tick().as_u64())).collect::<Vec<_>>()}));
+            }
+            merge(r, g, o, &ps);
+            r.add_traces(1);
+            cur.push((rt, path));
+        }
+        if level == depth {
+            break;
+        }
+        // expand sequentially in op order (deterministic)
+        let mut next = Vec::new();
+        for (rt, path) in &cur {
+            for op in enabled(rt) {
+                let Some(n) = step(rt, &op) else { continue };
+                transitions += 1;
+                if seen.insert(rt_fp(&n)) {
+                    states += 1;
+                    let mut p = path.clone();
+                    p.push(op);
+                    next.push((n, p));
+                }
+            }
+        }
+        frontier = next;
+        level += 1;
+    }
+    r.add_states(states);
+    r.add_transitions(transitions);
+    r.counter(&format!("states_{label}"), states);
+}
 
 fn main() {
-    let r = Report::new("C16", Level::Exploration);
-    r.machinery_error("check not implemented yet");
+    let r = Report::new("C16", Level::ModelChecking);
+    r.rule(
+        "states: BFS over {ingest(3 programs -> each worldline), scheduler pass (also idle), fork_strand(wl1@t -> child)} on the real \
+         runtime, from the empty two-worldline runtime and from seeded strand states, dedup by Debug(runtime+provenance). In EVERY state: \
+         worldline in {each known, unknown} x at in {Frontier, Tick(t) t<=len+1} x all 3 frames x 9 projections (valid and invalid pairs; \
+         truth filters None/empty/{a}/{b,absent}; query ids registered/unregistered, two vars) + 8 request variants (4 budgets, capability \
+         rights, authored plan, wrong builtin plan, hosted instance) on the canonical valid requests; optic menu = 6 aperture shapes x 6 \
+         budgets x {Frontier, Tick, Provenance coordinates, mismatched/unsupported focus, attachment-boundary policies}. Every request is \
+         issued twice. A case is non-trivial when it is a successful read at an explicit Tick coordinate.",
+    );
+    r.assume("recorded outputs are synthetic (hist::decorate re-records the runtime's real entries with outputs that are a function of commit_global_tick) because executors cannot emit in this tree");
+    r.assume("resolved.observed_after_global_tick is a freshness watermark (function of the live global tick by contract) and the live parent-basis posture of a strand FRONTIER read is a function of current parent history (INV-S10): both are excluded from cross-state comparisons, and only those");
+    r.assume("no replay checkpoints are stored in C16 states (optic witness basis CheckpointPlusTail names checkpoint configuration, not history)");
+    r.assume("engine state is fingerprinted through its public accessors (Engine is not Debug)");
+
+    let mut g = Global {
+        bound: HashMap::new(),
+        bound_rechecks: 0,
+        ident_by_content: HashMap::new(),
+        ident_by_hash: HashMap::new(),
+        payloads: BTreeMap::new(),
+    };
+    let mut seen = HashSet::new();
+
+    if let Some(path) = r.replay.clone() {
+        let v: Value = serde_json::from_str(&std::fs::read_to_string(&path).unwrap_or_default()).unwrap_or(Value::Null);
+        let hs = v["detail"]["case"]["history"].as_str().unwrap_or("").to_string();
+        let ops = ops_dec(&hs);
+        // revisit every prefix so that coordinate-binding comparisons are reproduced
+        for k in 0..=ops.len() {
+            if let Some(rt) = build(&ops[..k]) {
+                let o = visit(&rt, &ops[..k], true);
+                println!("[C16] replay prefix '{}' : {} violation(s)", path_enc(&ops[..k]), o.violations.len());
+                merge(&r, &mut g, o, &path_enc(&ops[..k]));
+            }
+        }
+        r.add_states(ops.len() as u64 + 1);
+        r.add_transitions(ops.len() as u64);
+        r.add_traces(1);
+        r.nontrivial(b"replay-a");
+        r.nontrivial(b"replay-b");
+        r.finish();
+    }
+
+    let depth = r.pick(3, 5);
+    let seed_depth = r.pick(2, 3);
+    explore(&r, &mut g, &mut seen, &[], depth, true, "from_empty");
+    // seeded strand states: S1 = strand child forked at the parent's tip (posture AtAnchor);
+    // S2 = S1 + a pending child intent (so that two more ops reach overlapping parent movement)
+    let s1 = [Op::Ingest(1, 0), Op::Tick, Op::Ingest(1, 1), Op::Ingest(2, 0), Op::Tick, Op::Fork(1)];
+    explore(&r, &mut g, &mut seen, &s1, seed_depth, true, "from_strand_seed");
+    let mut s2 = s1.to_vec();
+    s2.push(Op::Ingest(CHILD, 4));
+    s2.push(Op::Ingest(1, 4));
+    explore(&r, &mut g, &mut seen, &s2, seed_depth, true, "from_overlap_seed");
+
+    r.counter("binding_cache_entries", g.bound.len() as u64);
+    r.counter("binding_rechecks_in_other_states", g.bound_rechecks);
+    r.counter("distinct_artifact_identities", g.ident_by_hash.len() as u64);
+    for (k, s) in &g.payloads {
+        r.counter(&format!("distinct_payloads_{k}"), s.len() as u64);
+    }
+    for k in ["Head", "Snapshot", "TruthChannels", "QueryBytes", "optic:Head", "optic:Snapshot"] {
+        r.guard(&format!("at_least_2_distinct_readings_{k}"), g.payloads.get(k).map_or(0, |s| s.len()) >= 2);
+    }
+    let typed: Vec<&str> = ["InvalidWorldline", "InvalidTick", "UnsupportedFrameProjection", "UnsupportedQuery", "ObservationUnavailable", "BudgetExceeded", "UnsupportedObserverPlan", "UnsupportedObserverInstance", "UnsupportedRights"]
+        .into_iter()
+        .filter(|k| r.outcome_count(&format!("typed_error:{k}")) > 0)
+        .collect();
+    r.note("typed_error_kinds_seen", json!(typed));
+    r.guard("typed_errors_of_at_least_2_kinds", typed.len() >= 2);
+    r.guard("invalid_tick_and_invalid_worldline_seen", typed.contains(&"InvalidTick") && typed.contains(&"InvalidWorldline"));
+    r.guard("optic_obstructions_of_at_least_2_kinds",
+        ["MissingWitness", "BudgetExceeded", "UnsupportedAperture", "ConflictingFrontier", "UnsupportedProjectionLaw", "AttachmentDescentRequired"]
+            .iter().filter(|k| r.outcome_count(&format!("optic_obstruction:{k}")) > 0).count() >= 2);
+    r.guard("historical_reads_rechecked_in_descendant_states", g.bound_rechecks > 0);
+    r.guard("tick_reads_recorded", r.counter_value("tick_reads_recorded_for_binding") > 0);
+    r.guard("optic_tick_reads_recorded", r.counter_value("optic_tick_reads_recorded_for_binding") > 0);
+    r.guard("strand_states_visited", r.counter_value("states_with_strand_worldline") > 0);
+    r.guard("bounded_readings_within_budget_seen", r.counter_value("bounded_readings_within_budget") > 0);
+    r.guard("nonempty_truth_channels_read", g.payloads.get("TruthChannels").map_or(0, |s| s.len()) >= 3);
     r.finish();
 }
